@@ -158,12 +158,12 @@ reg("C05", "exploration",
 reg("C09", "fault_enumeration",
     "crash-point enumeration at cfg-guarded hooks (abort in a sacrificial process at every durable step) + reopen / validate / re-delivery differential against an uninterrupted twin",
     "8 scenarios (plain extension, extension spending the oldest output, fork block, reorg with spends, header-only reorg, compaction, compaction "
-    "then block, spend of a pre-horizon output on a compacted node) on fixed worlds; count mode lists every crash point reached (328 per "
-    "world: before/after each file truncate, append+fsync, temp-file rename, file replace, LMDB commit) and EVERY one is crashed; a fresh "
+    "then block, spend of a pre-horizon output on a compacted node) on fixed worlds; count mode lists every crash point reached (422 per "
+    "world: before/after each file truncate, append+fsync, temp-file rename, file replace, LMDB commit, plus two torn appends per MMR file append — only the first 5 bytes / all but the last byte of the buffered records written) and EVERY one is crashed; a fresh "
     "process must open the chain, find the head on the previously accepted chain, pass validate(false), equal the replayed reference state, "
-    "converge after re-delivery to the twin's head and state, accept a later block; compaction crash points that recover are verified a second time with the compaction deferred until after further blocks. 420 crash points that fail are recorded known findings "
+    "converge after re-delivery to the twin's head and state, accept a later block; compaction crash points that recover are verified a second time with the compaction deferred until after further blocks. 552 crash points that fail are recorded known findings "
     "(4 root causes, see DESIGN.md); any other failing point, or a listed point failing differently, is a violation.",
-    "Process death at the hook (abort, no destructors, LMDB env not closed); the OS page cache survives: torn writes / power loss are out of reach. Worlds are fixed (not seed-derived) so that recorded findings are reproducible bit for bit.")
+    "Process death at the hook (abort, no destructors, LMDB env not closed); the OS page cache survives: power loss (loss or reordering of completed writes) is out of reach; appends to MMR files cut short by the death of the process are covered (hook crash_point_torn). Worlds are fixed (not seed-derived) so that recorded findings are reproducible bit for bit.")
 
 reg("C20", "exploration",
     "determinism and algebraic round-trip oracles (own mod-n scalar reference) over seeds x paths x amounts x switch modes x proof builders x view keys",
